@@ -16,6 +16,7 @@ from collections import namedtuple
 from functools import lru_cache
 from itertools import islice, cycle, groupby, repeat
 import logging
+from math import ldexp
 from random import randint, shuffle
 from threading import Lock
 import socket
@@ -695,7 +696,7 @@ class ExponentialReconnectionPolicy(ReconnectionPolicy):
                 yield self.max_delay
             else:
                 try:
-                    yield self._add_jitter(min(self.base_delay * (2 ** i), self.max_delay))
+                    yield self._add_jitter(min(ldexp(self.base_delay, i), self.max_delay))
                 except OverflowError:
                     overflowed = True
                     yield self.max_delay
@@ -705,7 +706,7 @@ class ExponentialReconnectionPolicy(ReconnectionPolicy):
     # Adds -+ 15% to the delay provided
     def _add_jitter(self, value):
         jitter = randint(85, 115)
-        delay = (jitter * value) / 100
+        delay = jitter * (value / 100)
         return min(max(self.base_delay, delay), self.max_delay)
 
 
